@@ -121,6 +121,24 @@ def work(item):
     name, seedstr = item
     rng = random.Random(seedstr)
     prog, values, decisions, facts, utilities = dt_program(rng)
+    if seedstr.startswith("c21g/"):
+        # family with gated decisions: a decision without a utility of its own that only pays off together with another
+        # decision (tried later), which pays off by itself
+        while len(decisions) < 2:
+            k = len(values) + len(decisions) + 1
+            d = A("d%d" % len(decisions))
+            decisions.append((d, "p%d" % (100 + k)))
+            prog.insert(0, ("ad", [("p%d" % (100 + k), d)], []))
+        i, j = sorted(rng.sample(range(len(decisions)), 2))
+        if rng.random() < 0.3:
+            i, j = j, i
+        di, dj = decisions[i][0], decisions[j][0]
+        utilities = [u for u in utilities if u[0] != di]
+        gx, gy = A("gx"), A("gy")
+        prog.append(("rule", gx, [(di, False), (dj, False)]))
+        prog.append(("rule", gy, [(dj, False), (facts[0][0], False)]))
+        utilities.append((gx, False, rng.choice([3, 6, 12])))
+        utilities.append((gy, False, rng.choice([4, 8, 20])))
     st = Stats()
     st["programs"] = 1
     text = dt_text(prog, values, decisions, utilities)
@@ -292,7 +310,8 @@ def main(tier, seed):
                        "evidence constraints on decision nodes are not modelled (evidence is put on a derived atom)"]
     n = 80 if tier == "quick" else 2500
     items = [("dt/%d/%d" % (seed, i), "c21/%s/%s" % (seed, i)) for i in range(n)]
-    run.bounds = {"programs": n, "max_decisions": 4}
+    items += [("dt-gated/%d/%d" % (seed, i), "c21g/%s/%s" % (seed, i)) for i in range(n // 2)]
+    run.bounds = {"programs": len(items), "max_decisions": 4}
     for st in pmap(work, items, item_timeout=180):
         run.merge(st)
     return run.finish()
